@@ -1338,7 +1338,7 @@ print("done")
 """
 
 
-def restart_smoke(rng, n_subjects=4, default_metrics=None):
+def restart_smoke(rng, n_subjects=4, default_metrics=None, c_locale=None):
     """sessions in separate interpreter processes with DIFFERENT hash seeds on one output file: session 1 is killed after k subjects,
     session 2 resubmits everything; reference: one uninterrupted session.  -> (lines, sequential lines, report)"""
     import json
@@ -1350,6 +1350,12 @@ def restart_smoke(rng, n_subjects=4, default_metrics=None):
     script = Path(d) / "session.py"
     script.write_text(RESTART_SESSION)
     names = [f"sub-{i:02d}" for i in range(n_subjects)]
+    if c_locale is None:
+        c_locale = rng.random() < 0.5
+    if c_locale:
+        # interpreters whose preferred encoding is not UTF-8 (LC_ALL=C, UTF-8 mode off) and subject names outside ASCII: the
+        # files are UTF-8 whatever the locale says
+        names = [n + s for n, s in zip(names, ["", "_M\u00fcller", "", "_\u0141\u00f3d\u017a", "_\u00e9", ""] * 3)]
     out, seq = str(Path(d) / "restart.tsv"), str(Path(d) / "uninterrupted.tsv")
     k = rng.randint(1, n_subjects - 1)
     seeds = rng.sample(range(1, 1000), 3)
@@ -1359,11 +1365,15 @@ def restart_smoke(rng, n_subjects=4, default_metrics=None):
         default_metrics = rng.random() < 0.5
     # the session's evaluator uses the default metric lists; the FIRST process also builds bystanders
     rep["default_metrics_and_bystanders_in_first_process"] = default_metrics
+    rep["c_locale_and_non_ascii_names"] = c_locale
 
     def run(path, kill, seed, first=False):
         extra = ["1" if first else "2"] if default_metrics else []
+        env = dict(os.environ, PYTHONHASHSEED=str(seed))
+        if c_locale:
+            env.update(LC_ALL="C", LANG="C", PYTHONUTF8="0", PYTHONCOERCECLOCALE="0", PYTHONIOENCODING="utf-8")
         p = subprocess.run([sys.executable, str(script), str(common.REPO), path, json.dumps(names), str(kill)] + extra, capture_output=True, text=True,
-                           timeout=600, env=dict(os.environ, PYTHONHASHSEED=str(seed)))
+                           timeout=600, env=env)
         rep["steps"].append({"exit": p.returncode, "stderr": p.stderr.strip().splitlines()[-1:] if p.returncode not in (0, 9) else []})
         return p.returncode
     try:
